@@ -257,6 +257,16 @@ func buildWorld(name string) *world {
 			w.Deliver = append(w.Deliver, b)
 			parent = b
 		}
+	case "mtp-equal":
+		// as mtp-ahead, but stamped so that the median time past of the tip is
+		// exactly the node's adjusted time: the template's time must still be
+		// strictly later (MTP+1s)
+		for i := 0; i < 6; i++ {
+			b := lab.Build(p, parent, lab.BOpt{Name: fmt.Sprintf("Q%d", parent.Height+1), Tag: 3500 + uint32(parent.Height+1),
+				Time: lab.Now.Add(time.Duration(i-1) * time.Minute)})
+			w.Deliver = append(w.Deliver, b)
+			parent = b
+		}
 	case "reorg-post", "reorg-pre":
 		w.Reorg = true
 		f3 := w.F[3]
